@@ -12,6 +12,7 @@ From Coq Require Import NArith ZArith List Bool.
 From ST Require Import Base.Outcome Base.Units Gen.Tables Codec.Spec Codec.Model.
 From ST Require Codec.ProofsTables Codec.ProofsSpec Codec.ProofsEnc Codec.ProofsC14 Codec.ProofsExamples.
 From ST Require Codec.LeafBridge Gen.Leaf.
+From ST Require Codec.LoopBridge.
 Import ListNotations.
 Local Open Scope N_scope.
 
@@ -174,3 +175,14 @@ Theorem encode_size_matches_source : forall n, (Z.of_nat n < 2 ^ 62)%Z ->
   ST.Gen.Leaf.src_b64_encode_size (Z.of_nat n) = Z.of_nat (b64_encode_size n).
 Proof. exact ST.Codec.LeafBridge.b64_encode_size_matches_source. Qed.
 Print Assumptions encode_size_matches_source.
+
+(* ---- tie by translation, a loop: _ST_PRIVATE::hex_encode(output, data, size) is translated from the CURRENT headers into
+   Gen/Leaf.v (the while loop, the function-local table hex_chars as it stands in the function's own text, output as a
+   write-only cursor); for inputs of any length, with enough fuel, it stores exactly the characters the model encoder of
+   every theorem above produces ---- *)
+Theorem hex_encode_loop_matches_source : forall l fuel, all_lt 256 l = true -> (length l < fuel)%nat ->
+  (Z.of_nat (length l) < 18446744073709551616)%Z ->
+  exists ws, ST.Gen.Leaf.src_hex_encode fuel (ST.Codec.LoopBridge.arrb l) (Z.of_nat (length l)) = Some ws /\
+             hex_encode_raw l = Ok (map Z.to_N ws).
+Proof. exact ST.Codec.LoopBridge.hex_encode_matches_source. Qed.
+Print Assumptions hex_encode_loop_matches_source.
